@@ -220,6 +220,7 @@ fn kad_inbound() -> SimResult {
     if sub_second > 0 {
         probe("sub-second-lifetime-served");
     }
+    note_val("shape", stored.min(15) as u64 + 16 * sub_second.min(7) as u64 + 128 * providers_ok.min(7) as u64 + 1024 * providers_refused.min(7) as u64 + 8192 * (steps as u64 / 8));
     for c in &clients {
         let _ = c.node.take_events();
     }
